@@ -270,7 +270,7 @@ def g_ukf(g, rng, tier):
         for comps in (1, 2, 3):
             for lm in ((0, 1, 1), (2, 1, 1)):
                 g.add("ukfc", "valid", dict(additive=add, comps=comps, compsq=comps, r=lcov(lm) if add else 2, valid=1, ir=lcov(lm),
-                                            **lay("p", LIN), **lay("m", lm), **lay("q", LIN)), tag="quaternion-measurement")
+                                            again=comps % 2, **lay("p", LIN), **lay("m", lm), **lay("q", LIN)))
     # quaternion states: mean(i) has 4 numbers per quaternion, K*innovation 3
     for add in (0, 1):
         for comps in (1, 2):
@@ -322,7 +322,9 @@ def g_resample(g, rng, tier):
     g.add("resample", "outside", dict(n=0, nr=0, np=0, **lay("c", LIN), **lay("r", LIN)))          # empty set: csw(0)
     g.add("resprior", "outside", dict(n=4, k=4, np=4, ratio="1", **lay("c", LIN)))                 # nothing left to resample
     g.add("resprior", "outside", dict(n=4, k=2, np=3, ratio="0.5", **lay("c", LIN)))
-    g.add("resprior", "valid", dict(n=4, k=2, np=4, ratio="0.5", **lay("c", (2, 1, 1))), tag="quaternion-state")
+    for n, ratio in ((1, "0.5"), (4, "0.5"), (5, "0.25"), (7, "0.75"), (3, "0")):
+        for l in ((2, 1, 1), (0, 2, 1)):
+            g.add("resprior", "valid", dict(n=n, k=int(math.floor(n * float(ratio))), np=n, ratio=ratio, **lay("c", l)))
 
 
 def g_density(g, rng, tier):
@@ -544,9 +546,9 @@ REQUIRED_THEOREMS = ["C14_WhiteNoiseAcceleration_safe", "C14_SimulatedStateModel
                      "C14_SimulatedLinearSensor_safe", "C14_HistoryBuffer_safe", "C14_InitSurveillanceAreaGrid_safe", "C14_sigma_point_safe", "C14_augmentWithNoise_safe",
                      "C14_unscented_transform_safe", "C14_unscented_transform_additive_measurement_failed_safe", "C14_KFPrediction_safe",
                      "C14_KFCorrection_safe", "C14_UKFPrediction_additive_safe", "C14_UKFPrediction_generic_safe", "C14_UKFCorrection_safe",
-                     "C14_UKFCorrection_quaternion_measurement_refuted",
+                     "C14_UKFCorrection_quaternion_measurement_safe",
                      "C14_UKFCorrection_quaternion_state_refuted", "C14_SUKFCorrection_safe", "C14_SUKFCorrection_quaternion_state_refuted",
-                     "C14_Resampling_safe", "C14_ResamplingWithPrior_safe", "C14_ResamplingWithPrior_quaternion_refuted",
+                     "C14_Resampling_safe", "C14_ResamplingWithPrior_safe", "C14_ResamplingWithPrior_quaternion_safe",
                      "C14_gaussian_density_safe", "C14_gaussian_density_UVR_safe", "C14_EstimatesExtraction_safe"]
 RULE = ("exhaustive over the enumerated options: 3 Dim values x every measured-component subset of size <= 3 x component counts 1..4 x the "
         "layouts (linear, linear+Euler, linear+quaternion, quaternion only; with and without noise augmentation) x the five unscented-transform "
